@@ -41,6 +41,20 @@ def main():
         demo_cmd = re.sub(r"cd\s+\S+\s*&&\s*", "", demo_cmd).split("(or")[0].strip()
         demo_cmd = re.sub(r"/tmp/mut/C\d+/repo", wt, demo_cmd)
     out["demo_cmd"] = demo_cmd
+    # a demonstration delivered as a plain file is turned into demo.diff first
+    if not os.path.exists(os.path.join(d, "demo.diff")) and mm:
+        import glob as _g
+        files = sorted(_g.glob(os.path.join(d, "demo_*.rs")))
+        pkgname = pkg.group(1) if pkg else crates[0]
+        if files:
+            dest = os.path.join(wt, pkgname, "tests", mm.group(1) + ".rs")
+            import shutil as _s
+            _s.copy(files[0], dest)
+            sh(f"git add -N {dest}", wt)
+            rc, diff = sh("git diff", wt)
+            open(os.path.join(d, "demo.diff"), "w").write(diff)
+            sh(f"git reset -q {dest}", wt)
+            reset()
     # 1. demonstration alone
     rc, _ = sh(f"git apply {d}/demo.diff", wt)
     if rc != 0:
